@@ -59,6 +59,9 @@ def cterm(t):
         return "(RRaise (UserError 5))"
     if k == "recerr":
         return "(RRaise RecursionError)"
+    if k == "reject":
+        # the callback performs a call that the library rejects (a documented guard): the exception it raises
+        return f"(RRaise {REJECTS[t[1]][0]})"
     if k == "try":
         # try: t[2]  except <t[1]>: t[3]   (t[1]: "ValueError" or "Exception")
         return f"(RTry {'catch_value_error' if t[1] == 'ValueError' else 'catch_exception'} {cterm(t[2])} {cterm(t[3])})"
@@ -132,6 +135,34 @@ def all_keys(srcs):
 
 
 # ---- running the implementation ------------------------------------------------------------
+
+def _rej(name):
+    from fractions import Fraction as F
+    from dyce import H, P
+    from dyce.evaluation import explode
+    h = H({1: 1, 2: 2, 3: 1})
+    if name == "neg_matmul":
+        return (-1) @ h
+    if name == "parity_frac":
+        return H({F(1, 2): 1}).is_even()
+    if name == "neg_count":
+        return H({1: -1})
+    if name == "within_inverted":
+        return h.within(2, 1)
+    if name == "both_limits":
+        return h.explode(max_depth=1, precision_limit=F(1, 2))
+    if name == "index_oob":
+        return (2 @ P(h)).h(5)
+    if name == "bad_limit":
+        return explode(h, limit=F(3, 2))
+    raise KeyError(name)
+
+
+# name -> (Coq exception, Python exception class)
+REJECTS = {"neg_matmul": ("ValueError", ValueError), "parity_frac": ("TypeError", TypeError), "neg_count": ("ValueError", ValueError),
+           "within_inverted": ("ValueError", ValueError), "both_limits": ("ValueError", ValueError),
+           "index_oob": ("IndexError", IndexError), "bad_limit": ("ValueError", ValueError)}
+
 
 class Marker(Exception):
     pass
@@ -221,6 +252,9 @@ def run_mech_impl(mech, calls, fault=None, use_foreach=False, base_exception=Fal
             return a + ev(t[2])
         if k == "raise":
             raise Marker("table")
+        if k == "reject":
+            _rej(t[1])
+            raise WrongSource()      # the rejected call returned something
         if k == "try":
             try:
                 return ev(t[2])
@@ -404,6 +438,8 @@ def oracle_calls(mech, calls, fault=None, budget=20000):
             return a + b
         if k == "raise":
             raise Marker("table")
+        if k == "reject":
+            raise REJECTS[t[1]][1]()
         if k == "try":
             try:
                 return ev(t[2], ctx)
